@@ -27,4 +27,52 @@ def parseInput (b : Back) (node : RawInput) : Option DataType :=
   | .enum vs => match Enum.fromSyn b node vs with | .ok e => some (.enum e) | .error _ => none
   | .union => none
 
+/-- members of a named-field struct / variant carry names (what `syn` hands over: `Fields::Named`) -/
+def DataType.shapeWF (d : DataType) : Bool :=
+  match d with
+  | .struct s => !s.namedFields || s.fields.all (·.member.isNamed)
+  | .enum e => e.variants.all fun v => !v.namedFields || v.fields.all (·.member.isNamed)
+
+/-- .. as a property of what `syn` hands over: the fields of `Fields::Named` have names -/
+def RawFields.shapeWF (r : RawFields) : Bool := r.kind != .named || r.fields.all (·.name.isSome)
+
+def RawInput.shapeWF (n : RawInput) : Bool :=
+  match n.body with
+  | .struct d => d.shapeWF
+  | .enum vs => vs.all (·.fields.shapeWF)
+  | .union => true
+
+/-- the child path for which an entry of the grouped member list opens nested levels -/
+def containerPath (ctx : ImplContext) (fc : FieldContainer) : Option ChildPath :=
+  match fc.fieldData with
+  | .field f => (f.attrs.child ctx.ty).map (·.childPath)
+  | .ghostData g => g.childPath
+  | .parentChildField _ _ => none
+
+/-- no *collision of names* in one conversion of a struct: among the entries of the grouped member list,
+    * the key of a plain member, and of a nested field of a `#[parent(..)]` list, matches no level of the child path of
+      another member or ghost (it is not drawn into that nested struct);
+    * the key of a flattened member matches a level at or below the end of its own path only when it *is* that level's
+      key (levels are told apart by their keys — true of any path whose segments contain no `.`). -/
+def noCollisionAt (input : Struct) (ctx : ImplContext) : Bool :=
+  let G := groupedMembers input ctx
+  let L := G.filterMap (containerPath ctx)
+  G.all fun fc =>
+    match fc.fieldData with
+    | .field f =>
+      match f.attrs.child ctx.ty with
+      | none => L.all fun cp => cp.strs.all fun key => !pathMatches fc.path key
+      | some ca => L.all fun cp => (List.range cp.strs.length).all fun d =>
+          match cp.strs[d]? with
+          | some key => !pathMatches fc.path key || decide (d < ca.childPath.strs.length - 1) || key == ca.childPath.strs.getLast?.getD ""
+          | none => true
+    | .ghostData _ => true
+    | .parentChildField _ _ => L.all fun cp => cp.strs.all fun key => !pathMatches fc.path key
+
+/-- no collision of names in any Into / IntoExisting conversion of the input (variants have no nested structs) -/
+def DataType.noKeyCollision (d : DataType) : Bool :=
+  match d with
+  | .struct s => (implContexts d).all fun ctx => ctx.kind.isFrom || noCollisionAt s ctx
+  | .enum _ => true
+
 end O2o
